@@ -40,6 +40,13 @@ MUTANTS = [
     ("C16", "cuqi/solver/_solver.py", "return np.multiply(np.sign(x), np.maximum(np.abs(x)-gamma, 0))", "return np.multiply(np.sign(x), np.abs(x)-gamma)"),
     ("C16", "cuqi/solver/_solver.py", "        super().__init__(nfunc,x0,ngradfunc,method,**kwargs)", "        super().__init__(nfunc,x0,gradfunc,method,**kwargs)"),
     ("C16", "cuqi/solver/_solver.py", "        upper = np.ones_like(x)", "        upper = np.ones_like(x)*2"),
+    # C01
+    ("C01", "cuqi/density/_density.py", "        return self._logd(*args) + self._constant", "        return self._logd(*args)"),
+    ("C01", "cuqi/distribution/_joint_distribution.py", "            return self._add_constants_to_density(Posterior(self._likelihoods[0], self._distributions[0]))", "            return Posterior(self._likelihoods[0], self._distributions[0])"),
+    ("C01", "cuqi/distribution/_joint_distribution.py", "        inputs = np.split(stacked_input, split_indices[:-1])", "        inputs = np.split(stacked_input, split_indices[:-1])[::-1]"),
+    ("C01", "cuqi/distribution/_joint_distribution.py", "            logd_kwargs = {key:value for (key,value) in kwargs.items() if key in density.get_parameter_names()}\n            logd += density.logd(**logd_kwargs)", "            logd_kwargs = {key:value for (key,value) in kwargs.items() if key in density.get_parameter_names()}\n            logd += density.logd(**logd_kwargs) if len(logd_kwargs) > 0 else 0"),
+    ("C01", "cuqi/density/_density.py", "            if set(par_names) != set(kwargs.keys()):", "            if not set(par_names).issubset(set(kwargs.keys())):"),
+    ("C01", "cuqi/distribution/_distribution.py", "                    func = partial(var_val, **var_args)\n                    setattr(new_dist, var_key, func)", "                    func = partial(var_val, **var_args)\n                    setattr(self, var_key, func)"),
     # C03
     ("C03", "cuqi/distribution/_beta.py", "return (self.alpha - 1)/x + (self.beta-1)/(x-1)", "return (self.alpha - 1)/x - (self.beta-1)/(x-1)"),
     ("C03", "cuqi/distribution/_gaussian.py", "return -( self.sqrtprec.T @ (self.sqrtprec @ (val - self.mean).T) )", "return -( self.sqrtprec.T @ (self.sqrtprec @ (val).T) )"),
